@@ -179,6 +179,17 @@ PLAN = {
 
 NOT_YET = {}
 
+# external_body stubs that are only the CALLERS' view of a function whose real body is proved in another unit (against the same
+# contract text): listed in the evidence as such, not as assumptions
+PROVED_IN = {
+    'split': 'split', 'search_dictionary': 'fixed_search', 'get_words_for': 'data', 'find_suffix': 'data',
+    'search_corrected': 'data (the ASCII clause is a data precondition, validated by tools/data_pre.py)',
+    'process_key_value': 'fixed_pkv_off / fixed_pkv_on / fixed_pkv_common', 'insert_old_style_reph': 'fixed_reph',
+    'get_char_for_key': 'layout', 'layout_get_value': 'layout_get', 'layout_get_value_numpad': 'layout_get',
+    'keycode_to_char': 'layout (+ Kani k_keycode_to_char)', 'get_modifiers': 'layout (+ Kani k_modifiers_plane)',
+    'suggest': 'phon', 'suggest_only_phonetic': 'phon',
+}
+
 
 def units_for(prop, tier):
     p = PLAN[prop]
